@@ -1291,4 +1291,199 @@ theorem so_settleOne (w : W) (aid : Nat) (hc : Core fk w) (ha : AffInv w) (h : S
               exact h.ord.sm p hp j hjp s hs
             · simp only [List.append_nil]; exact h.inc k
 
+
+/-! ## the factory actor's loop -/
+
+theorem starts_handleMsg (w : W) (m : FMsg) : startsOf (w.handleMsg m).env.log = startsOf w.env.log := by
+  cases m with
+  | dispatch j => exact (sames_dispatch w j).starts
+  | finished who key => exact (sames_workerFinishedJob w who key).starts
+  | adjust n => exact (sames_resizePool w n).starts
+  | updateSettings d n => exact (sames_updateSettings w d n).starts
+  | setHandler hd => exact sameE_emit w.env _ rfl
+  | drainRequests => exact sameE_emit w.env _ rfl
+  | calculate =>
+    show startsOf (if w.cfg.hasCC && w.armed then { w with armed := false, blocked := true } else w.calcRest).env.log = _
+    split
+    · rfl
+    · exact (sames_calcRest w).starts
+  | getQueueDepth => rfl
+  | getNumActiveWorkers => rfl
+  | getAvailableCapacity => rfl
+
+theorem ordW_weaken {I' : List Job} {w : W} (h : OrdW I S w) (hs : ∀ y ∈ I', y ∈ I) : OrdW I' S w :=
+  ⟨h.q, h.m, fun x hx y hy => h.qi x hx y (hs y hy), h.mq, fun p hp x hx y hy => h.mi p hp x hx y (hs y hy), h.sq, h.sm⟩
+
+/-- handling one message (the dispatch at the head of the mailbox, or any other message) -/
+theorem ordW_handleMsg (w : W) (m : FMsg) (rest : List FMsg) (hc : Core fk w) (hnb : w.pool ≠ [] → w.queue = [])
+    (h : OrdW (inboxJobs (m :: rest)) S w) (hi : (inboxJobs (m :: rest)).Pairwise KO)
+    (hsi : ∀ x ∈ inboxJobs (m :: rest), ∀ s ∈ S x.key, s < x.id) :
+    OrdW (inboxJobs rest) S (w.handleMsg m) := by
+  cases m with
+  | dispatch j =>
+    simp only [inboxJobs] at h hi hsi
+    have h0 : OrdW (inboxJobs rest) S w := ordW_weaken h (fun y hy => List.mem_cons_of_mem _ hy)
+    exact ordW_dispatch w j hc.lite h0 hnb
+      (fun x hx => h.qi x hx j (List.mem_cons_self ..))
+      (fun p hp x hx => h.mi p hp x hx j (List.mem_cons_self ..))
+      (fun y hy => (List.pairwise_cons.mp hi).1 y hy)
+      (fun s hs => hsi j (List.mem_cons_self ..) s hs)
+  | finished who key => exact ordW_workerFinishedJob w who key hc.lite h
+  | adjust n => exact ordW_resizePool w n hc h
+  | updateSettings d n => exact ordW_updateSettings w d n hc h
+  | setHandler hd =>
+    exact h.sub (List.Sublist.refl _)
+      (poolSubW_map (fun p => { p with handler := hd }) (fun _ => rfl) (fun _ => rfl) rfl (fun _ => rfl))
+  | drainRequests => exact h.of_actors rfl rfl rfl
+  | calculate =>
+    show OrdW _ S (if w.cfg.hasCC && w.armed then { w with armed := false, blocked := true } else w.calcRest)
+    split
+    · exact h.of_actors rfl rfl rfl
+    · exact ordW_calcRest w h
+  | getQueueDepth => exact h.of_actors rfl rfl rfl
+  | getNumActiveWorkers => exact h.of_actors rfl rfl rfl
+  | getAvailableCapacity => exact h.of_actors rfl rfl rfl
+
+/-- everything the start-order argument carries along a run -/
+structure TI (lo : Nat) (w : W) : Prop where
+  ki : KI w
+  j : J w
+  aff : AffInv w
+  so : w.stopped = true ∨ SO lo w
+
+theorem ti_loopStep (w w' : W) (h : TI lo w) (hl : w.loopStep = some w') : TI lo w' := by
+  refine ⟨ki_loopStep w w' h.ki hl, j_loopStep w w' h.j hl, affInv_loopStep w w' h.aff hl, ?_⟩
+  have hzz : ∀ i, total i w' = total i w := fun i => total_loopStep i w w' hl
+  unfold W.loopStep at hl
+  split at hl
+  · simp at hl
+  · rename_i hsb
+    have hst : w.stopped = false := by
+      cases hx : w.stopped with
+      | false => rfl
+      | true => simp [hx] at hsb
+    have hso : SO lo w := by
+      rcases h.so with hs | hs
+      · rw [hst] at hs; cases hs
+      · exact hs
+    have hc := h.j.core hst
+    split at hl
+    · simp only [Option.some.injEq] at hl; subst hl; left; rfl
+    · split at hl
+      · rename_i who rest hsup
+        simp only [Option.some.injEq] at hl
+        subst hl
+        right
+        have hi := (ctl_handleSupervisorEvt ({ w with env := { w.env with sup := rest } } : W) who).inbox
+        have hs := (sames_handleSupervisorEvt ({ w with env := { w.env with sup := rest } } : W) who).starts
+        have ho := ordW_handleSupervisorEvt w who rest hc hso.ord
+        have hS : startedIds (W.handleSupervisorEvt { w with env := { w.env with sup := rest } } who).env.log = startedIds w.env.log := by
+          funext k; exact startedIds_of_starts hs k
+        refine ⟨by rw [hi, hS]; exact ho, by rw [hi]; exact hso.i, by rw [hi, hS]; exact hso.si, by rw [hS]; exact hso.inc,
+          fun i hi' => by rw [hzz]; exact hso.z i hi', by rw [hS]; exact hso.sb⟩
+      · split at hl
+        · rename_i m rest hin
+          simp only [Option.some.injEq] at hl
+          subst hl
+          right
+          obtain ⟨f, fi, _⟩ := afterHandle_act (W.handleMsg { w with inbox := rest } m)
+          have hib : (W.handleMsg { w with inbox := rest } m).afterHandle.inbox = rest := by
+            rw [fi, handleMsg_inbox]
+          have hs1 := starts_handleMsg ({ w with inbox := rest } : W) m
+          have hs2 := (sames_afterHandle (W.handleMsg { w with inbox := rest } m)).starts
+          have hS : startedIds (W.handleMsg { w with inbox := rest } m).afterHandle.env.log = startedIds w.env.log := by
+            funext k; exact startedIds_of_starts (hs2.trans hs1) k
+          have hord := hso.ord
+          have hii := hso.i
+          have hsi := hso.si
+          rw [hin] at hord hii hsi
+          have hcr : Core (fkOf (m :: rest)) ({ w with inbox := rest } : W) := by
+            have := hc; rw [hin] at this; exact this.frame ⟨rfl, rfl, rfl, EnvEq.refl _⟩
+          have hnb : ({ w with inbox := rest } : W).pool ≠ [] → ({ w with inbox := rest } : W).queue = [] := h.ki.k.empty_queue
+          have ho := ordW_handleMsg ({ w with inbox := rest } : W) m rest hcr hnb (hord.of_actors rfl rfl rfl) hii hsi
+          have hsub : ∀ y ∈ inboxJobs rest, y ∈ inboxJobs (m :: rest) := by
+            intro y hy
+            cases m <;> simp only [inboxJobs] <;> first | exact List.mem_cons_of_mem _ hy | exact hy
+          have hi2 : (inboxJobs rest).Pairwise KO := by
+            cases m <;> simp only [inboxJobs] at hii <;> first | exact (List.pairwise_cons.mp hii).2 | exact hii
+          refine ⟨?_, by rw [hib]; exact hi2, ?_, by rw [hS]; exact hso.inc, fun i hi' => by rw [hzz]; exact hso.z i hi',
+            by rw [hS]; exact hso.sb⟩
+          · rw [hib, hS]
+            exact ho.of_actors (afterHandle_fields _).1 f.pool f.env.actors
+          · rw [hib, hS]
+            intro x hx s hs
+            exact hsi x (hsub x hx) s hs
+        · simp at hl
+
+
+theorem so_settle (w : W) (hc : Core fk w) (ha : AffInv w) (h : SO lo w) : SO lo ({ w with env := w.env.settle } : W) := by
+  unfold Env.settle
+  generalize w.env.actors.map (·.aid) = l
+  have : ∀ (l : List Nat) (w : W), Core fk w → AffInv w → SO lo w → SO lo ({ w with env := l.foldl Env.settleOne w.env } : W) := by
+    intro l
+    induction l with
+    | nil => intro w _ _ h; exact h
+    | cons x xs ih =>
+      intro w hc ha h
+      exact ih _ (core_settleOne w x hc) (ha.of_pool rfl rfl) (so_settleOne w x hc ha h)
+  exact this l w hc ha h
+
+theorem TI.frame {w w' : W} (h : TI lo w) (hq : w'.queue = w.queue) (hp : w'.pool = w.pool) (hs : w'.poolSize = w.poolSize)
+    (hc : w'.cfg = w.cfg) (hi : w'.inbox = w.inbox) (hb : w'.byActor = w.byActor) (hn : w'.nextAid = w.nextAid)
+    (he : EnvEq w.env w'.env) (hl : startsOf w'.env.log = startsOf w.env.log) (hst : w'.stopped = w.stopped)
+    (hz : ∀ i, total i w' = total i w) : TI lo w' := by
+  refine ⟨h.ki.same hq hp hs hc hi, j_frame h.j ⟨hp, hb, hn, he⟩ hi hst, h.aff.of_pool hc hp, ?_⟩
+  rcases h.so with hs' | hs'
+  · left; rw [hst]; exact hs'
+  · right; exact hs'.same hq hp (fun aid => mbox_of_actors he.actors aid) hl hi hz
+
+theorem ti_runQ (fuel : Nat) (w : W) (h : TI lo w) : TI lo (W.runQ fuel w) := by
+  induction fuel generalizing w with
+  | zero => exact h
+  | succ fuel ih =>
+    unfold W.runQ
+    cases hl : w.loopStep with
+    | some w' => simp only; exact ih _ (ti_loopStep w w' h hl)
+    | none =>
+      simp only
+      have hs : TI lo (W.tryFinishStop { w with env := w.env.settle }) := by
+        have hk : KI (W.tryFinishStop { w with env := w.env.settle }) := by
+          have := ki_runQ 1 w h.ki
+          unfold W.runQ at this
+          simp only [hl] at this
+          unfold W.runQ at this
+          split at this <;> exact this
+        have hj : J (W.tryFinishStop { w with env := w.env.settle }) := by
+          have := j_runQ 1 w h.j
+          unfold W.runQ at this
+          simp only [hl] at this
+          unfold W.runQ at this
+          split at this <;> exact this
+        have haf : AffInv (W.tryFinishStop { w with env := w.env.settle }) := by
+          unfold W.tryFinishStop
+          split
+          · exact h.aff.of_pool rfl rfl
+          · exact h.aff.of_pool rfl rfl
+        refine ⟨hk, hj, haf, ?_⟩
+        by_cases hst : w.stopped = true
+        · left
+          unfold W.tryFinishStop
+          split <;> exact hst
+        · have hst' : w.stopped = false := by simpa using hst
+          right
+          have hso : SO lo w := by
+            rcases h.so with hs | hs
+            · rw [hst'] at hs; cases hs
+            · exact hs
+          have := so_settle w (h.j.core hst') h.aff hso
+          unfold W.tryFinishStop
+          have hcond : (({ w with env := w.env.settle } : W).stopped && !({ w with env := w.env.settle } : W).exited &&
+              ({ w with env := w.env.settle } : W).awaiting.all (fun aid => !(({ w with env := w.env.settle } : W).env.getActor aid).any (·.alive))) = false := by
+            simp [hst']
+          simp only [hcond, Bool.false_eq_true, if_false]
+          exact this
+      split
+      · exact hs
+      · exact ih _ hs
+
 end Factory
